@@ -1,6 +1,7 @@
 package main
 
 import (
+	"bazil.org/fuse"
 	"bytes"
 	"context"
 	"errors"
@@ -908,4 +909,95 @@ func shmCloseScenario(rep *core.Report, layout sim.Layout) {
 		rep.Violate("C11.no-exit", "exit/journal-mode-switch", map[string]any{"codes": ex}, desc())
 	}
 	w.curReplay = nil
+}
+
+// replicaRecreateScenario: the per-database state that selects the lock set of LiteFS's internal writers (the
+// journal mode) follows the database through drop and re-creation: a database that was in WAL mode is dropped on
+// the primary and created again under the same name with a rollback journal; a rollback-mode reader on the
+// (running) replica then keeps replicated transactions out like any other reader.
+func replicaRecreateScenario(rep *core.Report, layout sim.Layout) {
+	cl := sim.NewCluster(core.Scratch("c11-recreate"))
+	defer cl.Close()
+	cl.Lease.AllowOnly()
+	p, err := cl.Start("p", sim.ClusterNodeOpts{Candidate: true})
+	if err != nil {
+		core.Infra("start primary: %v", err)
+	}
+	if err := cl.Elect("p", 10*time.Second); err != nil {
+		core.Infra("elect: %v", err)
+	}
+	step := func(what string, fs ...func() error) {
+		for _, f := range fs {
+			if err := f(); err != nil {
+				core.Infra("recreate scenario, %s: %v", what, err)
+			}
+		}
+	}
+	commitJ := func(pg *sim.Pager, pl sim.Plan) {
+		fs := []func() error{func() error { return pg.BeginJ(pl) }, pg.JCreate, pg.JSync}
+		for _, q := range pl.M {
+			q := q
+			fs = append(fs, func() error { return pg.JPage(q) })
+		}
+		fs = append(fs, pg.JFinal)
+		step("journal transaction", fs...)
+		pg.EndJ()
+	}
+	c1 := p.Connect(dbName, 61)
+	pg := sim.NewPager(c1, layout, sim.PagerOpts{Sector: 512, Busy: 5 * time.Second})
+	commitJ(pg, sim.Plan{Kind: "j", Ns: 3, M: []int{1, 2, 3}, Out: "commit", Fin: "DELETE", V: 1})
+	commitJ(pg, sim.Plan{Kind: "j", Ns: 3, M: []int{1}, Out: "commit", Fin: "DELETE", V: 2, Wal: true})
+	pw := sim.Plan{Kind: "w", Ns: 3, M: []int{1, 2}, Out: "commit", V: 3, Wal: true}
+	step("WAL transaction", func() error { return pg.BeginW(pw) }, func() error { return pg.WHdr(1) }, func() error { return pg.WFrame(1, false, false) }, func() error { return pg.WFrame(2, false, true) }, pg.WEnd)
+	r, err := cl.Start("r", sim.ClusterNodeOpts{Candidate: false})
+	if err != nil {
+		core.Infra("start replica: %v", err)
+	}
+	if err := cl.WaitPos("r", dbName, p.Store.DB(dbName).Pos(), 10*time.Second); err != nil {
+		core.Infra("replica did not catch up: %v", err)
+	}
+	if r.Store.DB(dbName).Mode() != litefs.DBModeWAL {
+		rep.Nonconf("recreate scenario: the replica's database is not in WAL mode before the drop")
+	}
+	// drop, then the same name again with a rollback journal
+	c1.Close()
+	step("drop", p.Connect(dbName, 62).RemoveDB)
+	if err := cl.WaitPos("r", dbName, p.Store.DB(dbName).Pos(), 10*time.Second); err != nil {
+		core.Infra("replica did not receive the drop: %v", err)
+	}
+	c2 := p.Connect(dbName, 63)
+	pg2 := sim.NewPager(c2, layout, sim.PagerOpts{Sector: 512, Busy: 5 * time.Second})
+	commitJ(pg2, sim.Plan{Kind: "j", Ns: 3, M: []int{1, 2, 3}, Out: "commit", Fin: "DELETE", V: 11})
+	if err := cl.WaitPos("r", dbName, p.Store.DB(dbName).Pos(), 10*time.Second); err != nil {
+		core.Infra("replica did not receive the re-created database: %v", err)
+	}
+	// a rollback-mode reader on the replica: PENDING (shared), SHARED (shared), PENDING released
+	rc := r.Connect(dbName, 64)
+	step("reader", func() error { return rc.OpenDB(false) },
+		func() error { return rc.LockDB(fuse.LockRead, sim.PendingByte, sim.PendingByte) },
+		func() error { return rc.LockDB(fuse.LockRead, sim.SharedFirst, sim.SharedFirst+sim.SharedSize-1) },
+		func() error { return rc.LockDB(fuse.LockUnlock, sim.PendingByte, sim.PendingByte) })
+	before := r.Store.DB(dbName).Pos()
+	first, _ := rc.ReadDBUncached(int64(layout.Real(2)-1)*int64(layout.PageSize), 64)
+	commitJ(pg2, sim.Plan{Kind: "j", Ns: 3, M: []int{1, 2}, Out: "commit", Fin: "DELETE", V: 12})
+	want := p.Store.DB(dbName).Pos()
+	core.Beat("real:replica-apply-blocked-after-recreate")
+	time.Sleep(300 * time.Millisecond)
+	rep.Eval(2)
+	rep.Case("replica-apply-after-drop-and-recreate", true)
+	second, _ := rc.ReadDBUncached(int64(layout.Real(2)-1)*int64(layout.PageSize), 64)
+	if got := r.Store.DB(dbName).Pos(); got != before || !bytes.Equal(first, second) {
+		rep.Violate("C11.enter-only-when-free", "replica-apply-proceeded-while-client-holds/SHARED/after-drop-and-recreate",
+			map[string]any{"pos_before": before.String(), "pos_now": got.String(), "page_2_changed_under_the_reader": !bytes.Equal(first, second),
+				"replica_mode": fmt.Sprint(r.Store.DB(dbName).Mode()), "primary_mode": fmt.Sprint(p.Store.DB(dbName).Mode())},
+			map[string]any{"kind": "replica-recreate"})
+	}
+	_ = rc.LockDB(fuse.LockUnlock, sim.SharedFirst, sim.SharedFirst+sim.SharedSize-1)
+	rc.Close()
+	if err := cl.WaitPos("r", dbName, want, 10*time.Second); err != nil {
+		rep.Nonconf("recreate scenario: the replica did not apply the transaction after the reader let go: %v", err)
+	}
+	if ex := r.Node.Exits(); len(ex) > 0 {
+		rep.Violate("C11.no-exit", "exit/replica-recreate", map[string]any{"codes": ex}, nil)
+	}
 }
